@@ -34,6 +34,120 @@ func aliasValues() []*Opnd {
 	return vs
 }
 
+// X2: the outcome depends on operand *values* only — not on an operand's own
+// precision, rounding mode or accuracy (decorations of cmp.go: other mode, larger
+// precision, accuracy != Exact from a real rounding), also through the codecs.
+func operandAttrLayer(tier string) Layer {
+	type xop struct {
+		name  string
+		arity int
+		do    func(z *Dec, a []*Dec) error
+		model func(v []Val, p uint32, m uint8) RRes
+	}
+	viaSpec := func(id int) xop {
+		sp := opSpecs[id]
+		return xop{sp.Name, sp.Arity, func(z *Dec, a []*Dec) error { sp.Do(z, a); return nil }, sp.Model}
+	}
+	set := func(v []Val, p uint32, m uint8) RRes { return RoundVal(v[0], p, m) }
+	xops := []xop{viaSpec(opAdd), viaSpec(opSub), viaSpec(opMul), viaSpec(opQuo), viaSpec(opFMA), viaSpec(opSqrt), viaSpec(opSet), viaSpec(opNeg), viaSpec(opAbs),
+		{"GobDecode(x.GobEncode())", 1, func(z *Dec, a []*Dec) error {
+			b, err := a[0].GobEncode()
+			if err != nil {
+				return err
+			}
+			return z.GobDecode(b)
+		}, set},
+		{"UnmarshalText(x.MarshalText())", 1, func(z *Dec, a []*Dec) error {
+			b, err := a[0].MarshalText()
+			if err != nil {
+				return err
+			}
+			return z.UnmarshalText(b)
+		}, set},
+		{"SetString(x.Text('e',-1))", 1, func(z *Dec, a []*Dec) error {
+			if _, ok := z.SetString(a[0].Text('e', -1)); !ok {
+				return fmt.Errorf("SetString failed")
+			}
+			return nil
+		}, set},
+	}
+	var vals []*Opnd
+	for _, s := range []string{"3", "12", "25", "449", "451", "4500000000000000000001", "5500000000000000000000", "9999999999999999999", "99999999999999999995", "1000000000000000000050000000000000000001", "123456789012345678901234567890123456789"} {
+		for _, neg := range []bool{false, true} {
+			vals = append(vals, mkCoef(neg, mustInt(s), -2, 60, 0))
+		}
+	}
+	vals = append(vals, mkSpecial(fZero, false, 60, 0), mkSpecial(fZero, true, 60, 0), mkSpecial(fInf, false, 60, 0), mkSpecial(fInf, true, 60, 0))
+	precs := []uint32{1, 2, 19, 20, 38}
+	return Layer{
+		Name:   "X2-operand-attributes",
+		Units:  len(xops),
+		Bounds: fmt.Sprintf("operations {Add,Sub,Mul,Quo,FMA,Sqrt,Set,Neg,Abs, gob round trip, text round trip, SetString(Text)} × operands from %d values (ties, near-ties, multi-word, ±0, ±Inf), each in 4 decorations (as is, other rounding mode, larger precision, accuracy != Exact from a real rounding) × receiver precision %v × 6 modes × receiver pre-states {fresh, held-longer, neg-inexact}: result equals the undecorated run and the exact model", len(vals), precs),
+		Run: func(c *Ctx, u int) {
+			op := xops[u]
+			idx := make([]int, op.arity)
+			for {
+				ops := make([]*Opnd, op.arity)
+				for i := range ops {
+					ops[i] = vals[idx[i]]
+				}
+				if op.arity < 3 || (idx[2]%3 == 0 && idx[1]%2 == 0) { // FMA: a third of the addends, half of the multipliers
+					for _, prec := range precs {
+						for _, m := range M6 {
+							exp := op.model(valsOf(ops), prec, m)
+							for dk := 0; dk < 4; dk++ {
+								for _, pre := range []int{preFresh, preLonger, preInexact} {
+									if c.Skip() {
+										continue
+									}
+									args := make([]*Dec, op.arity)
+									for i := range args {
+										args[i] = decorated(ops[i], (dk+i)%4*b2i(dk != 0))
+									}
+									z := buildPre(pre, prec, m)
+									var err error
+									pv, isNaN := protect(func() { err = op.do(z, args) })
+									key := func() string {
+										return fmt.Sprintf("%s %s decoration=%d prec=%d mode=%s pre=%s", op.name, opndsString(ops), dk, prec, modeName(m), preNames[pre])
+									}
+									c.NonTrivial()
+									if err != nil {
+										c.Fail(key(), "error: "+err.Error())
+										continue
+									}
+									o := Observe(z)
+									c.Outcome(o.Hash())
+									if msg := judgeFull(o, pv, isNaN, exp, false); msg != "" {
+										c.Fail(key(), "result depends on an operand's attributes (or is wrong): "+msg)
+										continue
+									}
+									if pv == nil && (o.Prec != prec || o.Mode != m) {
+										c.Fail(key(), fmt.Sprintf("receiver attributes changed: %s, want prec %d mode %s", o, prec, modeName(m)))
+									}
+									if c.WantSample() {
+										c.Sample(key() + " -> " + o.String())
+									}
+								}
+							}
+						}
+					}
+				}
+				i := 0
+				for ; i < op.arity; i++ {
+					idx[i]++
+					if idx[i] < len(vals) {
+						break
+					}
+					idx[i] = 0
+				}
+				if i == op.arity || c.Done() {
+					break
+				}
+			}
+		},
+	}
+}
+
 func aliasLayers(tier string) []Layer {
 	opsList := []int{opAdd, opSub, opMul, opQuo, opFMA, opSqrt, opSet, opNeg, opAbs}
 	type unit struct {
@@ -210,5 +324,5 @@ func aliasLayers(tier string) []Layer {
 				}
 			}
 		},
-	}}
+	}, operandAttrLayer(tier)}
 }
